@@ -98,7 +98,7 @@ def run_units(binp, test, tier, deadline_s, scratch):
     todo = list(range(units))
     tries = {u: 0 for u in todo}
     running = {}  # unit -> (proc, wdir, logfile, start)
-    reports, not_started, retried = {}, [], []
+    reports, not_started, retried, gave_up = {}, [], [], []
 
     def start(u):
         wdir = os.path.join(scratch, "u%d-%d" % (u, tries[u]))
@@ -155,6 +155,16 @@ def run_units(binp, test, tier, deadline_s, scratch):
                 continue
             why = "hung (no exit after %d s)" % UNIT_TIMEOUT[tier] if hung else "exited %s" % rc
             if tries[u] >= 2:
+                if hung or rc == 3:
+                    # no exit within the unit's time budget / the worker's own no-progress watchdog, twice: on a loaded
+                    # machine a unit of long sequences can simply be too slow. Not a verdict and not worth losing the
+                    # other units' results: the unit is reported as not covered (exhaustive: false)
+                    keep = os.path.join(checklib.build_dir(CID), "failed-unit-%d.log" % u)
+                    shutil.copy(os.path.join(wdir, "log.txt"), keep)
+                    checklib.log("unit %d %s twice; reported as not covered (log kept at %s)" % (u, why, keep))
+                    gave_up.append(u)
+                    shutil.rmtree(wdir, ignore_errors=True)
+                    continue
                 fail(u, wdir, why)
             checklib.log("unit %d %s; starting it once more" % (u, why))
             retried.append(u)
@@ -165,6 +175,11 @@ def run_units(binp, test, tier, deadline_s, scratch):
             "deadline: %d of %d work units (the longest sequences) were not started: units %d..%d" % (
                 len(not_started), units, min(not_started), max(not_started)))
         out[0]["exhaustive"] = False
+    if gave_up and out:
+        out[0].setdefault("notes", []).append("%d of %d work units did not finish within their time budget twice and are not covered: units %s" % (
+            len(gave_up), units, ",".join(map(str, sorted(gave_up)))))
+        out[0]["exhaustive"] = False
+        out[0].setdefault("counters", {})["units_not_covered_after_two_timeouts"] = len(gave_up)
     if out:
         out[0].setdefault("counters", {})["units_restarted_after_hang_or_crash"] = len(retried)
     return out
